@@ -32,6 +32,7 @@ type Entry struct {
 var buckets = map[string]func(fx *Fixture) string{
 	"A": func(fx *Fixture) string { return fx.BktA }, "B": func(fx *Fixture) string { return fx.BktB },
 	"V": func(fx *Fixture) string { return fx.BktV }, "L": func(fx *Fixture) string { return fx.BktL },
+	"O": func(fx *Fixture) string { return fx.BktO },
 	"new": func(*Fixture) string { return "bkt-new" }, "missing": func(*Fixture) string { return "bkt-missing" },
 }
 
@@ -252,6 +253,6 @@ func (fx *Fixture) Request(sp Spec) (*s3c.Req, *Entry, error) {
 
 // BucketChoices / KeyChoices are the symbolic targets the generators draw from.
 var (
-	BucketChoices = []string{"A", "A", "A", "B", "L", "V", "new", "missing"}
+	BucketChoices = []string{"A", "A", "A", "B", "L", "V", "O", "new", "missing"}
 	KeyChoices    = []string{"obj", "obj", "nested", "dirobj", "mp", "ver", "locked", "secret", "new", "newdir", "missing"}
 )
